@@ -26,6 +26,8 @@ impl Iterator for TokenStream<'_> {
     type Item = Token;
 
     fn next(&mut self) -> Option<Self::Item> {
+        #[cfg(cooklang_verif)]
+        crate::verif_hooks::point("token");
         let t = self.cursor.advance_token();
         let start = self.consumed;
         self.consumed += t.len as usize;
